@@ -42,6 +42,7 @@ type CheckCfg struct {
 	OutsideBounds  []string           `json:"outside_bounds"`
 	Assumptions    []string           `json:"assumptions"`
 	Oracle         string             `json:"oracle"`
+	Files          []string           `json:"files"`
 }
 
 // outDir is where evidence and replays go (VERIF_OUT overrides, for scratch evaluations).
@@ -137,6 +138,12 @@ func runCheck(id, tier string) int {
 	}
 	seed := int64(envInt("VERIF_SEED", 1))
 	inconclusive := []string{}
+	if len(cc.Files) > 0 {
+		harnessFilter = map[string]bool{}
+		for _, f := range cc.Files {
+			harnessFilter[f] = true
+		}
+	}
 	lt0 := time.Now()
 	P, err := LoadProgram(vd)
 	if err != nil {
@@ -587,6 +594,15 @@ func replayTape(path string) int {
 	}
 	vd := verifDir()
 	os.MkdirAll(filepath.Join(vd, ".work"), 0o755)
+	if cb, err := os.ReadFile(filepath.Join(vd, "checks", nt.Prop+".json")); err == nil {
+		var cc CheckCfg
+		if json.Unmarshal(cb, &cc) == nil && len(cc.Files) > 0 {
+			harnessFilter = map[string]bool{}
+			for _, f := range cc.Files {
+				harnessFilter[f] = true
+			}
+		}
+	}
 	// function registry by parsing harness sources is not available without SSA; load the program
 	P, err := LoadProgram(vd)
 	if err != nil {
